@@ -726,7 +726,7 @@ fn shuffle(r: &mut Rng, v: &mut [u32]) {
 
 /// ops building an nx x ny grid of squares, each split in two triangles, embedded with jittered
 /// lattice points; returns (ops, number of darts used)
-fn prefix_trimesh(rng: &mut Rng, nx: u32, ny: u32) -> (Vec<Op>, u32) {
+fn prefix_trimesh(rng: &mut Rng, nx: u32, ny: u32, anchors: bool) -> (Vec<Op>, u32) {
     let mut ops = vec![Op::Obs(false)];
     let d = |ix: u32, iy: u32, k: u32| 1 + 6 * (ix + nx * iy) + k;
     let mut pts = vec![(0.0f64, 0.0f64); ((nx + 1) * (ny + 1)) as usize];
@@ -748,6 +748,24 @@ fn prefix_trimesh(rng: &mut Rng, nx: u32, ny: u32) -> (Vec<Op>, u32) {
             let (p0, p1, p2, p3) = (pt(ix, iy), pt(ix + 1, iy), pt(ix + 1, iy + 1), pt(ix, iy + 1));
             for (dd, p) in [(a1, p0), (a2, p1), (a3, p3), (b1, p1), (b2, p2), (b3, p3)] {
                 ops.push(Op::Force(None, Call::WriteVertex(dd, p.0, p.1)));
+            }
+            if anchors {
+                // anchors are written dart by dart before the sews, consistently per lattice point /
+                // edge, so that every merge performed by the sews is between equal anchors
+                let va = |i: u32, j: u32| -> u64 {
+                    let bx = i == 0 || i == nx;
+                    let by = j == 0 || j == ny;
+                    if bx && by { u64::from(1 + i + (nx + 1) * j) } else if bx || by { (1u64 << 32) + 1 } else { 2u64 << 32 }
+                };
+                let ea = |boundary: bool| -> u64 { if boundary { (1u64 << 32) + 1 } else { 2u64 << 32 } };
+                for (dd, (i, j)) in [(a1, (ix, iy)), (a2, (ix + 1, iy)), (a3, (ix, iy + 1)), (b1, (ix + 1, iy)), (b2, (ix + 1, iy + 1)), (b3, (ix, iy + 1))] {
+                    ops.push(Op::Force(None, Call::WriteAttr(4, dd, va(i, j))));
+                }
+                for (dd, bd) in [(a1, iy == 0), (a2, false), (a3, ix == 0), (b1, ix + 1 == nx), (b2, iy + 1 == ny), (b3, false)] {
+                    ops.push(Op::Force(None, Call::WriteAttr(5, dd, ea(bd))));
+                }
+                ops.push(Op::Force(None, Call::WriteAttr(6, a1, 2u64 << 32)));
+                ops.push(Op::Force(None, Call::WriteAttr(6, b1, 2u64 << 32)));
             }
         }
     }
@@ -1348,7 +1366,7 @@ fn main() {
                     (p, u, Some((1u32, k)))
                 } else {
                     let (nx, ny) = (1 + rng.below(4) as u32, 1 + rng.below(4) as u32);
-                    let (p, u) = prefix_trimesh(&mut rng, nx, ny);
+                    let (p, u) = prefix_trimesh(&mut rng, nx, ny, anchors != 0);
                     (p, u, None)
                 };
                 let n0 = used + rng.below(2) as u32;
@@ -1356,20 +1374,6 @@ fn main() {
                 let mut m = build2(n0 as usize, mask);
                 for o in &prefix {
                     exec(&mut m, o);
-                }
-                if anchors != 0 && poly.is_none() {
-                    for vtx in m.iter_vertices().collect::<Vec<_>>() {
-                        let boundary = m.orbit(honeycomb_core::cmap::OrbitPolicy::Vertex, vtx).any(|d| m.beta::<2>(d) == 0);
-                        let a = if boundary { if rng.chance(1, 5) { u64::from(vtx) } else { (1u64 << 32) + 1 } } else { 2u64 << 32 };
-                        prefix.push(Op::Force(None, Call::WriteAttr(4, vtx, a)));
-                    }
-                    for e in m.iter_edges().collect::<Vec<_>>() {
-                        let a = if m.beta::<2>(e) == 0 { (1u64 << 32) + 1 } else { 2u64 << 32 };
-                        prefix.push(Op::Force(None, Call::WriteAttr(5, e, a)));
-                    }
-                    for f in m.iter_faces().collect::<Vec<_>>() {
-                        prefix.push(Op::Force(None, Call::WriteAttr(6, f, 2u64 << 32)));
-                    }
                 }
                 if user != 0 {
                     // user attribute values on every cell id
@@ -1413,6 +1417,7 @@ fn main() {
                 // generate the tail against the evolving scratch map
                 let mut tail: Vec<Op> = Vec::new();
                 let mut items: Vec<Item> = Vec::new();
+                let mut prelinks: Vec<Op> = Vec::new();
                 for _ in 0..nops {
                     let fresh = m.n_darts() as u32;
                     let alloc = Op::AddDarts(16);
@@ -1420,6 +1425,25 @@ fn main() {
                     tail.push(alloc);
                     let pl = if r2.chance(9, 10) { poly } else { None };
                     let k = gen_kcall(&mut r2, &m, fresh, pl, &only);
+                    // spare darts that are linked in the committed map and freed earlier in the
+                    // same block: the kernel must see its own transaction's view of them
+                    if mode == "kcompose" && r2.chance(1, 3) {
+                        let sp: Option<(u32, u32)> = match &k {
+                            KCall::InsertVertex(_, a, b, _) if *a >= fresh && *b >= fresh && a != b => Some((*a, *b)),
+                            KCall::InsertVertices(_, nds, _) if nds.len() >= 2 && nds[0] >= fresh && nds[1] >= fresh => Some((nds[0], nds[1])),
+                            _ => None,
+                        };
+                        if let Some((a, b)) = sp {
+                            let pre_link = Op::Force(None, Call::Link1(a, b));
+                            exec(&mut m, &pre_link);
+                            prelinks.push(pre_link);
+                            let un = Call::Unlink1(a);
+                            let o = Op::Force(None, un.clone());
+                            exec(&mut m, &o);
+                            tail.push(o);
+                            items.push(Item::C(un));
+                        }
+                    }
                     let o = if mode == "kern" && r2.chance(1, 6) {
                         Op::KBlock(None, vec![Item::K(k.clone())])
                     } else {
@@ -1449,6 +1473,7 @@ fn main() {
                         let mut pre = prefix.clone();
                         let obs = pre.pop().unwrap();
                         pre.extend(allocs);
+                        pre.extend(prelinks.clone());
                         pre.push(obs);
                         let mut it = pre.clone().into_iter().chain(seq);
                         run_case(&format!("{tag}{i}b"), mask, n0, &mut |_, _| it.next(), &mut out);
